@@ -97,6 +97,8 @@ structure Server where
   timeout : Nat := 0
   ssRequested : Bool := false
   gone : Bool := false              -- `freeserver` has run: the conf has no server object any more
+  connecttime : Option Nat := none  -- when the stream connection was last established (`server->connecttime`)
+  rdUp : Bool := false              -- the stream connection and its reader thread exist
 deriving Repr
 
 structure Client where
@@ -1047,6 +1049,65 @@ def tcpConn (w : World) (src : Bytes) (script : List Stream.Ev) : World :=
     let w := tcpServe w k ((Stream.dataOf script).length + script.length + 4) { script := script }
     removeclient w k
 
+/-! ### the proxy as stream client (tcp.c: tcpconnect / tcpclientrd, with closeh and timeouth of radsecproxy.c) -/
+
+/-- `connect_wait(start, last_success, firsttry)` for an attempt that starts now and succeeds at once:
+    connections to one server are at least 30 seconds apart -/
+def connectWait (now : Nat) (last : Option Nat) : Nat :=
+  match last with
+  | some l => if now - l < 30 then 30 - (now - l) else 0
+  | none => 0
+
+/-- `tcpconnect(server, 0, reconnect)` against a peer that accepts at once: the pacing sleep, then the server is connected,
+    its unanswered count is zero and the writer is told whether this was a RE-connection -/
+def streamConnect (w : World) (si : Nat) (reconnect : Bool) : World :=
+  match getSrv w si with
+  | none => w
+  | some s =>
+    let wait := connectWait w.now s.connecttime
+    let t := w.now + wait
+    let w := event { w with now := t } ("slept:" ++ toString wait)
+    let w := if reconnect then event w "reconnected" else w
+    updSrv w si fun s => { s with state := 2, lost := 0, conreset := reconnect, connecttime := some t }
+
+/-- index of the (last) association whose reply queue is longer than it was -/
+def grownQueue (before : List Nat) (w : World) : Int :=
+  ((List.range w.clients.length).foldl (fun (acc : Int) i =>
+    match w.clients[i]? with
+    | some c => if c.replyq.length > before.getD i 0 then (i : Int) else acc
+    | none => acc) (-1))
+
+/-- `tcpclientrd`: packets go to `replyh`; one it refuses, a silence while the server is held to be unresponsive, and the end of the
+    stream each make the reader re-establish the connection (`closeh` / `timeouth` -> the connecter) and read on. The run ends when
+    the reader is blocked on a fresh connection with nothing pending. -/
+def clientRd (w : World) (si : Nat) : Nat → Stream.Sock → World
+  | 0, _ => w
+  | fuel+1, s =>
+    if s.buf.isEmpty ∧ s.script.isEmpty ∧ !s.closed then w
+    else
+      match Stream.radGet false s with
+      | (.pkt b, s') =>
+        let w := event w ("got:" ++ toHex b)
+        let before := w.clients.map (·.replyq.length)
+        let r := replyh w si b
+        let w := event r.1 ("res:" ++ toString r.2 ++ "," ++ toString (grownQueue before r.1))
+        if r.2 = 0 then clientRd (streamConnect w si true) si fuel { script := s'.script }
+        else clientRd w si fuel s'
+      | (.timeout, s') =>
+        (match getSrv w si with
+         | some sv =>
+           if sv.lost ≠ 0 ∧ sv.ss ≠ ssOff then clientRd (streamConnect w si true) si fuel { script := s'.script }
+           else clientRd w si fuel s'
+         | none => w)
+      | (.closed _, s') => clientRd (streamConnect w si true) si fuel { script := s'.script }
+
+/-- one episode: the connection is brought up, the reader reads what the peer's script (ending with the peer closing) holds -/
+def srvConn (w : World) (si : Nat) (script : List Stream.Ev) : World :=
+  let up := match getSrv w si with | some s => s.rdUp | none => false
+  -- the first episode brings the connection up; later ones find the reader blocked on the connection the last one ended with
+  let w := if up then w else updSrv (streamConnect w si false) si fun s => { s with rdUp := true }
+  clientRd w si ((Stream.dataOf script).length + 2 * script.length + 8) { script := script ++ [.eof] }
+
 /-! ### histories -/
 
 /-- the operations of a history (the UDP listener's own association handling is not among them) -/
@@ -1068,6 +1129,7 @@ inductive Op
   | udpsend (nas : Nat) (pkt : Bytes)   -- a datagram from source `nas`: association handling, `radsrv`, next object allocated
   | tcpconn (src : Bytes) (script : List Stream.Ev)   -- a whole TCP connection from address `src` whose peer follows the script
   | rmserver (si : Nat)                 -- the writer of server `si` finds its reader gone: the server object is released
+  | srvconn (si : Nat) (script : List Stream.Ev)      -- the stream connection to server `si` is brought up and its reader reads the peer's script
 
 /-- one operation -/
 def step (w : World) : Op → World
@@ -1091,6 +1153,7 @@ def step (w : World) : Op → World
   | .udpsend n pkt => udpLoopTop (udpRecv w n pkt).1
   | .tcpconn src script => tcpConn w src script
   | .rmserver si => rmserver w si
+  | .srvconn si script => srvConn w si script
 
 
 end Rsp.World
